@@ -86,6 +86,8 @@ func run(scratch string) int {
 			return 2
 		}
 		return checks.AltCmp(tb, os.Args[2:])
+	case "tsparse":
+		return checks.TSParse(os.Args[2:])
 	case "smoke":
 		tb, err := plugin.Build(scratch)
 		if err != nil {
